@@ -396,6 +396,12 @@ def replay_lifecycle(failure):
                 raise RuntimeError('init failed before the MQ was created')
             super().init(config)
             state['mq_created'] = True
+            orig_exit_msg = self.mq.send_exit_msg
+
+            def send_exit_msg(reason=''):
+                state.setdefault('announced', []).append(reason)
+                orig_exit_msg(reason)
+            self.mq.send_exit_msg = send_exit_msg
             orig = self.mq.destroy
 
             def destroy():
@@ -449,6 +455,12 @@ def replay_lifecycle(failure):
         terms = [e for e in events if e == 'ABORT'] + (['COMPLETE(owed by the heartbeat thread)'] if 'hb_start' in events and 'hb_stop' in events else [])
         confirmed = len(terms) != 1 or (terms[0] == 'ABORT') == (res == 'returned')
         obs['terminal_events'] = terms
+    elif 'announce' in ob and '(' in ob:
+        kind = ob.rsplit('(', 1)[1].rstrip(')')
+        want = [kind] if FLAGS[cfg['prop_exit'] or 'clean'] & (2 if kind == 'error' else 1) else []
+        obs['announced'] = state.get('announced', [])
+        obs['required_announcement'] = want
+        confirmed = state.get('announced', []) != want
     elif 'outcome' in ob:
         confirmed = True
     return {'confirmed': bool(confirmed), 'inputs': {'policy': cfg, 'stage_behaviour': calls}, 'observed': obs, 'required': ob}
@@ -633,7 +645,8 @@ class InitUnit(Unit):
                  get_real_module_name=Native(lambda ex_, n: 'pkg.mod', 'get_real_module_name'),
                  parse_time_interval=Native(lambda ex_, s: secs, 'parse_time_interval'),
                  parse_date_and_or_time=Native(lambda ex_, s, utc=False: Obj('datetime', ts=at), 'parse_date_and_or_time'),
-                 timestr=Native(lambda ex_, s: 'x', 'timestr'))
+                 timestr=Native(lambda ex_, s: 'x', 'timestr'), hide_config_pwds=closure(FILTER, 'hide_config_pwds'),
+                 hide_uri_users_and_pwds=Native(lambda ex_, s: s, 'hide_uri_users_and_pwds (masking is C15)'))
         ex.models['datetime'] = type('DT', (), {'m_timestamp': staticmethod(lambda ex_, o: o.f['ts']), 'm_isoformat': staticmethod(lambda ex_, o: 'iso')})
         exit_after = {'none': None, 'seconds': secs, 'interval': '1:30', 'at': '@2030-01-01'}[ea]
         ex.assume(secs >= 0)
